@@ -261,8 +261,8 @@ func deleteCondTable(c *Ctx, a *cacheAnchors, rule string) {
 			if len(args) < 4 {
 				continue
 			}
-			mc, ok := unwrap(args[2]).(*ssa.MakeClosure)
-			if !ok {
+			mc, via := closureArg(args[2])
+			if mc == nil {
 				c.Unknown(rule, fnName(a.gnmiRemove), "condition argument of WalkDeleted", P.Pos(ci.Pos()), "condition is not a function literal: "+Expr(args[2]))
 				continue
 			}
@@ -324,7 +324,7 @@ func deleteCondTable(c *Ctx, a *cacheAnchors, rule string) {
 			for _, rel := range []int{-1, 0, 1} {
 				at := &Atoms{Class: cls2, Bool: map[string]bool{"ISNOTI": true}, Rel: map[[2]string]int{{"STORED", "DEL"}: rel}}
 				e := &PPA{Cond: at.Cond}
-				e.RunClosure(mc)
+				e.RunClosureVia(mc, via)
 				c.Paths += len(e.Paths)
 				c.Scen++
 				want := 0
